@@ -22,6 +22,17 @@ func rel(a, b float64) float64 {
 	return math.Abs(a-b) / math.Max(1e-300, math.Max(math.Abs(a), math.Abs(b)))
 }
 
+// gc is the check's own great-circle distance: the angle between the unit vectors, by atan2 of cross and dot product.
+func gc(a, b orb.Point) float64 {
+	v := func(p orb.Point) [3]float64 {
+		lo, la := p[0]*math.Pi/180, p[1]*math.Pi/180
+		return [3]float64{math.Cos(la) * math.Cos(lo), math.Cos(la) * math.Sin(lo), math.Sin(la)}
+	}
+	x, y := v(a), v(b)
+	cr := [3]float64{x[1]*y[2] - x[2]*y[1], x[2]*y[0] - x[0]*y[2], x[0]*y[1] - x[1]*y[0]}
+	return 6378137.0 * math.Atan2(math.Sqrt(cr[0]*cr[0]+cr[1]*cr[1]+cr[2]*cr[2]), x[0]*y[0]+x[1]*y[1]+x[2]*y[2])
+}
+
 func main() {
 	r := ev.New("C18", "exploration")
 	r.Rule = "complete finite lattice: all ordered pairs of 11x11 lon/lat points (antipodal and antimeridian-straddling pairs included); every point x 9 bearings x 7 distances; every point (|lat| <= 79 band added) x 16 short offsets (< 10 km); boxes of 4 sizes at every lattice point; every vertex list of 3..5 points of a 4x4 degree lattice with every rotation and the reversal, closed and unclosed; polygons with holes, multi-polygons, collections; an execution is one lattice point (pairs part: the first point of the pair); non-trivial = the two points differ / the ring has non-zero area"
@@ -49,6 +60,16 @@ func main() {
 			}
 			if h < 0 || h > halfCirc*(1+1e-12) {
 				c.Failf("haversine-range", "DistanceHaversine(%v,%v) = %v exceeds half the circumference %v", a, b, h, halfCirc)
+			}
+			if w := gc(a, b); math.Abs(h-w) > 1e-9*w+1e-3 {
+				c.Failf("haversine-anchor", "DistanceHaversine(%v,%v) = %v, the angle between the unit vectors times R = %v", a, b, h, w)
+			}
+			// the bearing and the distance lead from a to b (away from poles, coincident and antipodal pairs)
+			if w := gc(a, b); w > 1 && w < halfCirc*0.99 && math.Abs(a[1]) < 85 && math.Abs(b[1]) < 85 {
+				q := geo.PointAtBearingAndDistance(a, geo.Bearing(a, b), w)
+				if e := gc(q, b); !(e <= 1e-9*w+1e-3) {
+					c.Failf("bearing-anchor", "PointAtBearingAndDistance(%v, Bearing(a,b), %v) = %v lies %v m from b = %v", a, w, q, e, b)
+				}
 			}
 			if (a == b) != (h == 0) && !(math.Abs(a[1]) == 90) {
 				same := a[1] == b[1] && math.Mod(a[0]-b[0], 360) == 0
@@ -87,6 +108,9 @@ func main() {
 				q := geo.PointAtBearingAndDistance(p, b, d)
 				if got := geo.DistanceHaversine(p, q); math.IsNaN(got) || math.Abs(got-d) > 1e-6*d+1e-4 {
 					c.Failf("destination", "PointAtBearingAndDistance(%v, %v, %v) = %v lies %v m away", p, b, d, q, got)
+				}
+				if got := gc(p, q); math.IsNaN(got) || math.Abs(got-d) > 1e-6*d+1e-4 {
+					c.Failf("destination-anchor", "PointAtBearingAndDistance(%v, %v, %v) = %v lies %v m away by the angle between the unit vectors", p, b, d, q, got)
 				}
 			}
 		}
